@@ -12,6 +12,8 @@ UNITS = {
     "int_encoders": {"template": "contracts/int_encoders.vrs", "rlimit": 30},
     "conditions_parse": {"template": "contracts/conditions_parse.vrs", "rlimit": 60},
     "conditions_effects": {"template": "contracts/conditions_effects.vrs", "rlimit": 120},
+    "conditions_aggsig": {"template": "contracts/conditions_aggsig.vrs", "rlimit": 120},
+    "sig_paths": {"template": "contracts/sig_paths.vrs", "rlimit": 60},
     "mempool_visitor": {"template": "contracts/mempool_visitor.vrs", "rlimit": 60},
     "generator_len": {"template": "contracts/generator_len.vrs", "rlimit": 30},
     "aggsig": {"template": "contracts/aggsig.vrs", "rlimit": 60},
@@ -38,6 +40,11 @@ def K(name, harnesses, complete, bound, tier="quick", function=None, zflags=None
 
 def N(name, task, tier="quick"):
     return {"kind": "native", "name": name, "task": task, "tier": tier}
+
+
+def B(name, task, bound, tier="quick", timeout=1800):
+    """bounded stand-in (native exploration with a stated bound): reported under coverage.bounded, never counted as proved"""
+    return {"kind": "native", "name": name, "task": task, "tier": tier, "bounded": bound, "timeout": timeout}
 
 
 def V(unit, tier="quick", exclude_clause=None):
@@ -199,15 +206,16 @@ PROPS["C12"] = {
 
 PROPS["C15"] = {
     "level": "proof",
-    "technique": "Verus contract on the real BlsCacheData::put (capacity invariant + whole-map frame) over an assumed LinkedHashMap model; native evaluation of ground verdict-agreement obligations (cache vs plain, infinity key) on the real crates",
-    "level_text": "Deductive proof that put keeps the number of entries <= capacity for every prior cache content (inductive invariant, so for every history of puts), stores the pairing under its key and changes no other key except the single evicted oldest entry. The verdict clauses (cache-assisted == plain, infinity never valid) are pairing algebra inside blst: only ground instances are decided, by evaluating the real code on fixed pair lists with cold and warm caches.",
-    "level_note": "Schedules (interleavings of concurrent verifications) are NOT covered: Kani has no threads and Verus would need the code rewritten onto its own lock types. Agreement of verify/aggregate_verify/aggregate_verify_gt in general is a theorem about blst, assumed. LinkedHashMap/NonZeroUsize contracts assumed (read from linked-hash-map 0.5.6).",
+    "technique": "Verus contracts on the real BlsCacheData::put, on the per-pair closure of BlsCache::aggregate_verify (extracted verbatim as a function), on aggregate_verify's verdict combination, update and evict, over an assumed LinkedHashMap model: capacity invariant, cache-soundness invariant and cache-independence of the verdict; native evaluation of ground verdict-agreement obligations (cache vs plain, infinity key) on the real crates",
+    "level_text": "Deductive proof, for every prior cache content (inductive invariants, hence every history of calls): put/update/evict/aggregate_verify keep the number of entries <= capacity; every cached pairing is the pairing of the (pk, msg) it is keyed by (soundness invariant); the value the per-pair closure hands to aggregate_verify_gt equals e(H(pk||msg), pk) whether it came from the cache or not, and an infinity key is recorded on hits and misses alike; hence BlsCache::aggregate_verify's verdict is agv_gt(sig, pairings(pk,msg list)) && no key is infinity - a function of its arguments alone, independent of cache contents, capacity and evictions. That this equals the plain aggregate_verify verdict is pairing algebra inside blst: only ground instances are decided, by evaluating the real code on fixed pair lists with cold and warm caches.",
+    "level_note": "Mutex<BlsCacheData> is read as BlsCacheData and &self as &mut self (counted rewrites): the lock is dropped, i.e. the single-threaded view. Schedules (interleavings of concurrent verifications) are NOT covered: Kani has no threads and Verus would need the code rewritten onto its own lock types. The generic (Pk: Borrow<PublicKey>, Msg: AsRef<[u8]>, impl IntoIterator) signature is monomorphised to &Vec<(&PublicKey, &[u8])>; iterator.map(closure) consumed by aggregate_verify_gt is modelled by an eager loop calling the extracted closure (verdict-equivalent: aggregate_verify_gt stops early only when it answers false). Assumed: SHA-256 collision-free, compressed public-key encoding injective, aggregate_verify_gt a function of (sig, pairings), LinkedHashMap/NonZeroUsize contracts (read from linked-hash-map 0.5.6).",
     "components": [V("bls_cache"), N("native_bls_cache_ground", "bls_cache_ground")],
-    "assumptions": ["linked_hash_map::LinkedHashMap insertion-ordered map model (shims/lhm.rs)", "blst pairing algebra (foreign code)"],
+    "assumptions": ["linked_hash_map::LinkedHashMap insertion-ordered map model (shims/lhm.rs)", "blst pairing algebra (foreign code): hash_to_g2, pair, aggregate_verify_gt are uninterpreted functions of their arguments",
+                    "SHA-256 treated as collision-free; PublicKey::to_bytes injective with 48 bytes", "single-threaded view of the Mutex (lock dropped by rewrite)"],
     "not_covered": [
         "interleavings of concurrent verifications at lock granularity (schedules quantifier)",
-        "general agreement of verify / aggregate_verify / aggregate_verify_gt (pairing algebra in blst)",
-        "the map-closure of BlsCache::aggregate_verify, update and evict (generic IntoIterator + Mutex: outside Verus's subset); cache-transparency is argued from put's frame, not machine-checked",
+        "general agreement of verify / aggregate_verify / aggregate_verify_gt (pairing algebra in blst); only ground instances",
+        "BlsCache::update stores a caller-supplied pairing: soundness of what the caller supplies is the caller's obligation (validate_clvm_and_signature)",
     ],
 }
 
@@ -216,7 +224,11 @@ PROPS["C18"] = {
     "technique": "Verus contracts on the real BlockStatusCache methods (representation invariant, freshness precondition of add_leaf), on the insertion sites insert_entry_to_blob and upsert, on internal_hash/calculate_internal_hash and ProofOfInclusion::{root_hash,valid}; native evaluation of fixed operation histories on the real crate",
     "level_text": "Deductive proof that the key/hash/free-index cache keeps its invariant (one index per key and per hash, same index sets, none free) under every add/remove, that a leaf can only be written under a fresh key and hash (a proof obligation at every insertion site under contract: upsert now discharges it), that a failed cache operation changes nothing, and that ProofOfInclusion::valid is exactly the per-layer internal-hash chain ending in root_hash. Whole-history equivalence with a plain map is NOT proved; fixed histories (duplicate keys/hashes in batch_insert, upsert onto another leaf's hash, duplicate insert) are decided by evaluating the real code.",
     "level_note": "Assumed: vstd HashMap model + key model for KeyId/Hash, IndexSet as a finite set, Sha256 ghost model, and the helper contracts of MerkleBlob (get_leaf_by_key consistency between blob bytes and cache, mark_lineage_as_dirty/insert framing). batch_insert, delete, tree-shape invariants over the blob bytes, dirty-hash propagation and reload equivalence are not under contract.",
-    "components": [V("blob_cache"), N("native_datalayer_ground", "datalayer_ground")],
+    "components": [V("blob_cache"), N("native_datalayer_ground", "datalayer_ground"),
+                   B("bounded_datalayer_histories_4", "datalayer_histories:4",
+                     "BOUNDED stand-in for MerkleBlob::{insert, delete, batch_insert} (outside Verus's subset): every operation history of length <= 4 over a 21-operation alphabet (keys 1..8; duplicate keys and hashes, deletes down to 0/1/2 leaves, free-index reuse, batches of 0..5) on the real crate against a plain map: content, check_integrity, failed-op-unchanged, reload, independent root, inclusion proofs", tier="quick-only"),
+                   B("bounded_datalayer_histories_6", "datalayer_histories:6",
+                     "BOUNDED: as above with history length <= 6", tier="thorough-only", timeout=3600)],
     "assumptions": ["HashMap/IndexSet models", "blob-bytes/cache consistency as assumed helper contracts of MerkleBlob"],
     "not_covered": [
         "equivalence with a plain map over arbitrary histories; tree-shape invariant over the blob bytes",
@@ -240,14 +252,15 @@ PROPS["C02"] = {
 
 PROPS["C05"] = {
     "level": "proof",
-    "technique": "Verus contracts on the real make_aggsig_final_message, u64_to_bytes, Coin::coin_id, check_agg_sig_unsafe_message and to_key (extracted verbatim) against one signed-text spec aggsig_suffix(op, coin attributes, domain constant)",
-    "level_text": "Deductive proof: the helper that recomputes a spend's final signed message appends exactly the coin attributes selected by the opcode followed by that opcode's domain constant (amount in canonical form, AGG_SIG_ME over sha256(parent ‖ puzzle hash ‖ canon(amount))); an AGG_SIG_UNSAFE message is rejected exactly when it ends with one of the seven domain constants; to_key accepts exactly decodable non-infinity 48-byte keys.",
-    "level_note": "That an aggregate signature verifies exactly for the right multiset of (key, message) pairs is pairing algebra inside blst (assumed). The message construction inside parse_conditions' eight AGG_SIG arms and validate_signature / validate_clvm_and_signature are not yet tied to the same spec (not_covered).",
-    "components": [V("aggsig"), V("int_encoders")],
-    "assumptions": ["blst: key decoding (pk_decode) and signature verification are uninterpreted", "Sha256 ghost model"],
+    "technique": "Verus contracts on the real make_aggsig_final_message, u64_to_bytes, Coin::coin_id, check_agg_sig_unsafe_message, to_key, on parse_conditions' signature-pair construction (second overlay of the same extracted text), on validate_signature and on validate_clvm_and_signature, all against one signed-text spec aggsig_suffix(op, coin attributes, domain constant); native evaluation of ground verdicts of all four verification paths",
+    "level_text": "Deductive proof: (1) the helper that recomputes a spend's final signed message appends exactly the coin attributes selected by the opcode followed by that opcode's domain constant (amount in canonical form, AGG_SIG_ME over sha256(parent || puzzle hash || canon(amount))); (2) whenever parse_conditions accepts, the (public key, text) list has grown by exactly one pair per AGG_SIG_* condition, in order, with text = message || the same aggsig_suffix, nothing for any other condition, nothing at all under DONT_VALIDATE_SIGNATURE (fold pkm_run over the condition list, for all allocator trees); (3) an AGG_SIG_UNSAFE message is rejected exactly when it ends with one of the seven domain constants; to_key accepts exactly decodable non-infinity 48-byte keys; (4) validate_signature skips only under DONT_VALIDATE_SIGNATURE and otherwise returns the verifier's verdict on exactly the collected list; validate_clvm_and_signature accepts exactly when aggregate_verify_gt accepts the pairing of every collected pair (each occurrence, in order) and hands back those pairings under their sha256 keys. Ground: 348 verdicts (8 opcodes x coin amounts at every canonical-length boundary x multiplicities x {full, one occurrence missing, one text altered}) agree on block/no-cache, cold cache, warm cache and mempool paths with the independently computed expectation.",
+    "level_note": "That an aggregate signature verifies exactly for the right multiset of (key, message) pairs is pairing algebra inside blst (assumed: the three verifiers are uninterpreted functions of the signature and the sequence they are handed). run_spendbundle / run_block_generator2 (CLVM execution) between parse_conditions and the verifiers are outside reach; the ground verdicts exercise them end to end.",
+    "components": [V("aggsig"), V("int_encoders"), V("conditions_aggsig"), V("sig_paths"), N("native_sig_paths_ground", "sig_paths_ground")],
+    "assumptions": ["blst: key decoding (pk_decode), hash_to_g2, pair and the three aggregate verifiers are uninterpreted functions of their arguments", "Sha256 ghost model",
+                    "std iterator adaptors `.iter().map(|(pk, msg)| (pk, msg.as_slice()))` and `.iter().map(|t| &t.1)` borrow every element in order (shim_pair_refs, shim_seconds)"],
     "not_covered": [
-        "the eight AGG_SIG arms of parse_conditions (pkm_pairs construction) against aggsig_suffix; DONT_VALIDATE_SIGNATURE gating",
-        "validate_signature dispatch, validate_clvm_and_signature pairing loop, cache vs no-cache verdict (see C15)",
+        "pairing algebra: that aggregate verification accepts exactly the right multiset (blst); only ground instances",
+        "the drivers between parse_conditions and the verifiers (run_spendbundle, run_block_generator2: CLVM execution); ground instances only",
     ],
 }
 PROPS["C08"] = {
